@@ -79,3 +79,23 @@ PROPS["C08"] = dict(num=8, labs=["eng", "pol"], rule=ENG_RULE + " One case in fi
                 "8.3": "reverse-DNS lookup exceeded its timeout", "9": "a valid scripted run returned an error", "10": "engine panicked", "3.1": "out-of-range reply produced a path"},
     trusted_base=ENG_TRUSTED + ["scripted http.RoundTripper honours the request's context exactly like net/http's transport would (oracle: HTTP client and resolver return by the deadline of the context they are given)"],
     assumptions=["SACK dial/handshake deadlines and RunTraceroute-level composition are not covered by this check (partial)"])
+
+DRV_RULE = ("Driver lab: the real ICMP (v4, v6), UDP (v4, v6; strict, relaxed), TCP SYN (default, Paris; strict, relaxed) and SACK (strict, relaxed) drivers over the simulated wire under synctest, "
+            "one case per SendProbe / ReceiveProbe / ReadHandshake. Echo-id, IP-ID base, sequence number and ISN at and around wrap-around; TTL ranges incl. 1..1, 250..255, 255..255 and a sweep of all 255 TTLs per variant. "
+            "Replies are built by independent (gopacket-free) builders from the bytes the driver actually emitted: the device catalogue (time-exceeded with 28-byte / full / RFC 4884 quotes, outer NOP and record-route options, rewritten quoted TOS/TTL/checksum, "
+            "from a router and from the target; echo reply; port/host unreachable; SYN-ACK, RST, RST-ACK, SYN-ACK with ECE / options; duplicate ACK with 1..3 SACK blocks, ACK without SACK; IPv6 time-exceeded full/48-byte/behind hop-by-hop) "
+            "x the perturbation lattice (every byte xor 01/80/ff, every 16-bit field +-256 and +1, every truncation length) + own outgoing probes fed back, replies to unsent TTLs, traffic before the first send, random bytes with plausible first byte.")
+DRV_TRUSTED = ["gopacket v1.1.19 decoders/serialisers, x/net/icmp.ParseMessage, net/netip equality are MODELLED (Wire/Decode.v, Wire/Build.v) and validated byte-for-byte / outcome-for-outcome by this correspondence, not verified",
+               "simulated Source/Sink and synctest clock in /verif/harness; verif-tagged constructors in /repo (export_verif.go)"]
+for _pid, _num, _labs, _sig in [
+    ("C01", 1, ["drv"], {"1": "a hop was reported for a packet that is not a genuine reply to this run's probe with that TTL from that address", "1.9": "a hop from bytes the model cannot even parse"}),
+    ("C02", 2, ["drv"], {"2": "a catalogue reply form was not recognised", "2.1": "a catalogue reply form was credited to the wrong TTL or responder", "2.2": "ACK without SACK blocks did not end the SACK run as not-supported"}),
+    ("C04", 4, ["drv", "doc"], {"4": "destination flag differs from the protocol's proof of arrival from the target"}),
+    ("C05", 5, ["drv", "eng"], {"5": "RTT is negative or not (processing instant - send instant of a probe with that TTL); engine kept a later duplicate"}),
+    ("C06", 6, ["drv", "eng"], {"6.1": "probe malformed: version/IHL, TTL byte, length or checksum", "6.2": "probe flow fields differ from the run's", "6.3": "identifier shared with the probe of another TTL", "6": "emission order / pacing / stop-after-destination violated"}),
+    ("C09", 9, ["drv"], {"9.1": "the driver panicked", "9.2": "a non-empty inbound packet produced a run-aborting error", "9.3": "not-supported from a packet other than the permitted SACK case"}),
+]:
+    PROPS[_pid] = dict(num=_num, labs=_labs, rule=DRV_RULE + (" " + ENG_RULE if "eng" in _labs else "") + (" " + DOC_RULE if "doc" in _labs else ""),
+        nontrivial="any case (every case is a distinct operation on a real driver); distinct by input bytes", trivial_classes=[],
+        signatures=dict(_sig, **{"9": "a valid scripted run returned an error", "10": "engine panicked", "3.1": "out-of-range reply produced a path"}),
+        trusted_base=DRV_TRUSTED + (ENG_TRUSTED if "eng" in _labs else []), assumptions=["driver table holds what SendProbe stored (replayed from the observed sends)"])
